@@ -1,9 +1,57 @@
 import ModVerif.Drv.Util
+import ModVerif.Basic.UnicodeLetter
+import ModVerif.Basic.PathMatch
+import ModVerif.Model.Module
 namespace ModVerif.Drv.Module
-open ModVerif ModVerif.Drv
+open ModVerif ModVerif.Drv ModVerif.Module
 
-/-- stub: no ops modelled yet -/
+def isLetter : Nat → Bool := UnicodeLetter.isLetter
+def glob : Bytes → Bytes → Bool := PathMatch.pathMatch
+
+def showPath : Except PathErr Unit → String
+  | .ok () => "ok"
+  | .error e => "err:" ++ e.name
+
+def showCheck : Except CheckErr Unit → String
+  | .ok () => "ok"
+  | .error (.path e) => "err:" ++ e.name
+  | .error .notSemver => "err:not-semver"
+  | .error .major => "err:major"
+
+def showEsc : Except EscErr Bytes → String
+  | .ok b => xh b
+  | .error (.path e) => "err:" ++ e.name
+  | .error .disallowed => "err:disallowed"
+  | .error .internal => "err:internal"
+
+def showUnesc : Except UnescErr Bytes → String
+  | .ok b => xh b
+  | .error .escaped => "err:escaped"
+  | .error (.invalid e) => "err:invalid:" ++ e.name
+
 def handle : Handler
+  | "checkpath", [a] => do let a ← hx a; pure (showPath (checkModPath a))
+  | "checkimportpath", [a] => do let a ← hx a; pure (showPath (checkImportPath a))
+  | "checkfilepath", [a] => do let a ← hx a; pure (showPath (checkFilePath isLetter a))
+  | "splitpathversion", [a] => do
+      let a ← hx a
+      let r := splitPathVersion a
+      pure (xh r.1 ++ " " ++ xh r.2.1 ++ " " ++ showBool r.2.2)
+  | "matchpathmajor", [v, m] => do let v ← hx v; let m ← hx m; pure (showBool (matchPathMajor v m))
+  | "checkpathmajor", [v, m] => do let v ← hx v; let m ← hx m; pure (if checkPathMajor v m then "ok" else "err:major")
+  | "pathmajorprefix", [m] => do
+      let m ← hx m
+      pure (match pathMajorPrefix m with | none => "panic" | some p => xh p)
+  | "check", [p, v] => do let p ← hx p; let v ← hx v; pure (showCheck (check p v))
+  | "escapepath", [a] => do let a ← hx a; pure (showEsc (escapePath a))
+  | "escapeversion", [a] => do let a ← hx a; pure (showEsc (escapeVersion isLetter a))
+  | "unescapepath", [a] => do let a ← hx a; pure (showUnesc (unescapePath a))
+  | "unescapeversion", [a] => do let a ← hx a; pure (showUnesc (unescapeVersion isLetter a))
+  | "matchprefixpatterns", [g, t] => do let g ← hx g; let t ← hx t; pure (showBool (matchPrefixPatterns glob g t))
+  | "pathmatch", [p, n] => do let p ← hx p; let n ← hx n; pure (showBool (glob p n))
+  | "isletter", [n] => do let n ← n.toNat?; pure (showBool (isLetter n))
+  | "validutf8", [a] => do let a ← hx a; pure (showBool (Utf8.validString a))
+  | "runes", [a] => do let a ← hx a; pure (showNatList (Utf8.runes a))
   | _, _ => none
 
 end ModVerif.Drv.Module
